@@ -523,6 +523,28 @@ def search(payload):
             fails.append({"case": "one iterator over [1, 2, 9, 3, 4, 12, 5] handed to all_p(lt_p(5)), any_p(gt_p(10)), all_p(lt_p(5)) in turn: each stops at its first "
                                   "counter-example / witness and leaves the rest", "step": label, "result": repr(got), "expected": want, "left_in_the_iterator": repr(left), "expected_left": repr(rest)})
             break
+    # an element predicate that raises StopIteration (it drives an iterator of its own): plain Python's all(p(v) for v in x) turns that into
+    # RuntimeError; it must never be taken for the end of the collection
+    for qname, q_ in (("all_p", all_p), ("any_p", any_p)):
+        expected_it = iter([1, 2, 3])
+        want_eq = (lambda row: next(expected_it) == row) if qname == "all_p" else (lambda row: next(expected_it) != row)
+        n += 1
+        got = call(q_(fn_p(want_eq)), [1, 2, 3, 999])
+        if got[0] != "raise":
+            fails.append({"case": f"{qname}(fn_p(lambda row: next(expected) ... row)) with expected = iter([1, 2, 3]) on [1, 2, 3, 999]: the element predicate raises StopIteration "
+                                  "at the 4th item", "result": repr(got), "expected": "an exception (plain Python: RuntimeError: generator raised StopIteration)"})
+    # the same tee_p under the interpreter's optimisation levels (-O / -OO strip assert and `if __debug__:` blocks)
+    import subprocess as _sp
+    import sys as _sys7
+    src_ = "from predicate import tee_p\nseen = []\nr = tee_p(seen.append)(5)\nprint(r, seen)\n"
+    for flags in ([], ["-O"], ["-OO"]):
+        n += 1
+        try:
+            out_ = _sp.run([_sys7.executable] + flags + ["-c", src_], env=vlib.ENV, text=True, stdout=_sp.PIPE, stderr=_sp.STDOUT, timeout=300).stdout.strip()
+        except Exception as e_:  # noqa: BLE001
+            out_ = f"could not run: {e_}"
+        if out_ != "True [5]":
+            fails.append({"case": "tee_p(seen.append)(5) in a fresh interpreter started as `python " + " ".join(flags) + " -c ...`", "result": out_, "expected": "True [5]"})
     # comp_p on the same (mutable) object twice: f is applied at every call, to the object as it is now
     calls = []
     cp = comp_p(lambda x: (calls.append(list(x)), len(x))[1], atom("P", lambda v: v <= 2))
